@@ -418,7 +418,11 @@ def standard_explore(spec, res, a, harness_runs):
     log("judged %d cases in %.1fs: %d flagged" % (len(cases), time.time() - t, len(bad)))
     known = {(k["property"], k.get("class")): k for k in load_known()}
     mism = []
+    discard = set(spec.get("discard_codes", []))
+    res.meta["discarded_ambiguous"] = sum(1 for _, code in bad if code in discard)
     for idx, code in bad:
+        if code in discard:
+            continue
         c = cases[idx]
         body = {"property": prop, "case_index": idx, "seed": res.seed, "harness": c["_cmd"], "case": c.get("desc"), "coq_case": c["coq"][:20000], "verdict_code": code}
         if code == 1:
